@@ -91,9 +91,9 @@ add("C02", "model_checking",
     "Bounded model checking (Kani/CBMC) of the LL mechanisms the property rests on, one step at a time from directly built states, on generated tables: push_production (marker + stored right-hand side pushed, one node opened, one production entry) and process_item_stack (semantic action called exactly once per marker - never in recovery mode - with exactly one child per right-hand-side symbol, in grammar order, taken from the top of the tree stack; node closed unless trimmed), for every production of 3 (quick) / 5 (thorough) corpus grammars and all option values; plus ParseTreeStack::split_off / pop_n kernels for all stacks <= 6. Partial: derivation ORDER over a whole parse is not claimed.",
     STEP_NOTE, "SAT-based bounded model checking of compiled Rust (Kani), one-step harnesses over private parser state", "DESIGN.md §0.5, §4.0")
 add("C04", TV,
-    "Soundness half only: for every corpus grammar for which parol REPORTS resolved LALR(1) conflicts, the generated PARSE_TABLE unrolled as an LR automaton over symbolic tokens (z3, bit-vectors) accepts no token string up to N that is not a sentence of the grammar as written. That every conflicting grammar is reported is not decided (needs an independent LALR(1) construction).",
-    G_NOTE + "; conflicting grammars come from the generated ebnf_lr family; the reporting half of C04 is not claimed",
-    "bounded LR-automaton unrolling in QF_BV (z3) against bounded CFG derivability", "DESIGN.md §0.2")
+    "Two legs on the LALR(1) corpus (repository, committed and generated grammars). Soundness: for every grammar for which parol REPORTS resolved conflicts the generated PARSE_TABLE, unrolled as an LR automaton over symbolic tokens (z3, bit-vectors), accepts no token string up to N that is not a sentence of the grammar as written. Reporting (partial): for every grammar accepted WITHOUT a reported conflict z3 decides that the grammar handed to table construction has no sentence up to N with two different parse trees - an ambiguous grammar is not LALR(1), so such a witness means a conflict was resolved silently. Non-LALR(1) grammars that are unambiguous are not detected.",
+    G_NOTE + "; bounded-ambiguity encoding after Axelsson/Heljanko/Lange, witnesses confirmed by an independent parse-tree counter",
+    "bounded LR-automaton unrolling in QF_BV and bounded ambiguity detection in SAT (z3)", "DESIGN.md §0.2")
 add("C17", "model_checking",
     "Bounded model checking (Kani/CBMC) of the kernels: the skip classification used by the token buffer, the LL loop and the LR tree stack (Token::is_skip_token / is_effectively_skip_token / is_comment_token, LRParseTree::is_skip_token) is the same function of (token type, state_skip) for every u16 type and flag; ParseTreeStack::pop_n (used by LR reductions to take |rhs| significant entries) never counts a skipped entry and keeps it inside the reduced node, for all stacks <= 6 with symbolic flags. Partial: TokenBuffer filtering and whole-run comment delivery are not claimed.",
     STEP_NOTE + "; pop_n is verified at the instantiation T = Flag (the instantiation at LRParseTree with real tokens did not finish)",
